@@ -1286,6 +1286,14 @@ def stdlib_equivalents(repo, ref):
                     blk[i] = new
                     _invalidate(owner)
                     done.setdefault(q, []).append("pop(k, None)")
+                elif isinstance(st, ast.Expr) and isinstance(st.value, ast.Call) and isinstance(st.value.func, ast.Attribute) and st.value.func.attr == "pop" \
+                        and len(st.value.args) == 1 and not st.value.keywords and not isinstance(st.value.args[0], ast.Constant) \
+                        and _chain(st.value.args[0]) is not None and _chain(st.value.func.value) is not None:
+                    # D.pop(K) with the result discarded is del D[K]: the same KeyError(K) when the key is absent
+                    new = _fresh_stmt("del %s[%s]" % (ast.unparse(st.value.func.value), ast.unparse(st.value.args[0])), st, owner)[0]
+                    blk[i] = new
+                    _invalidate(owner)
+                    done.setdefault(q, []).append("pop(k)")
     return done
 
 
